@@ -131,11 +131,16 @@ type Conn struct {
 	maxStreams   uint32
 	maxFrameSize uint32
 
-	// encTableSize is the header table size the server last asked for. The
-	// read loop records it and the write loop, which owns the encoder, applies
-	// it. encTableSizeSeen belongs to the write loop alone.
-	encTableSize     uint32
-	encTableSizeSeen uint32
+	// encTableSize is the header table size the server last asked for and
+	// encTableSizeMin the smallest it has asked for since the write loop, which
+	// owns the encoder, last applied them: the server's decoder has shrunk its
+	// table to that size on the way, so the encoder has to hear of it as well
+	// as of the final value (RFC 7541 4.2). The read loop records them, and
+	// sets encTableSizeSet to say there is something to apply.
+	encTableLck     sync.Mutex
+	encTableSize    uint32
+	encTableSizeMin uint32
+	encTableSizeSet bool
 
 	current Settings
 
@@ -446,8 +451,6 @@ func (c *Conn) doHandshake() error {
 
 			if st.HeaderTableSize() <= defaultHeaderTableSize {
 				c.enc.SetMaxTableSize(st.HeaderTableSize())
-				c.encTableSize = st.HeaderTableSize()
-				c.encTableSizeSeen = st.HeaderTableSize()
 			}
 
 			// reply back
@@ -1029,8 +1032,13 @@ func (c *Conn) writeRequest(ctx *Ctx) error {
 	// The server may have changed the header table size since the last request.
 	// The encoder is the write loop's, so this is the only safe place to apply
 	// it, and the encoder signals the change to the peer's decoder itself.
-	if size := atomic.LoadUint32(&c.encTableSize); size != c.encTableSizeSeen {
-		c.encTableSizeSeen = size
+	c.encTableLck.Lock()
+	lowest, size, changed := c.encTableSizeMin, c.encTableSize, c.encTableSizeSet
+	c.encTableSizeSet = false
+	c.encTableLck.Unlock()
+
+	if changed {
+		c.enc.SetMaxTableSize(lowest)
 		c.enc.SetMaxTableSize(size)
 	}
 
@@ -1549,9 +1557,25 @@ func (c *Conn) handleSettings(in *FrameHeader, st *Settings) {
 	atomic.StoreUint32(&c.maxStreams, c.serverS.MaxConcurrentStreams())
 	atomic.StoreUint32(&c.maxFrameSize, c.serverS.MaxFrameSize())
 
-	// The encoder belongs to the write loop, so the new table size is handed
-	// over rather than applied here.
-	atomic.StoreUint32(&c.encTableSize, c.serverS.HeaderTableSize())
+	// The encoder belongs to the write loop, so a new table size is handed over
+	// rather than applied here. Every value counts, not only the last one: the
+	// server may lower the size and raise it again, in two frames or in one.
+	c.encTableLck.Lock()
+
+	for b := in.payload; len(b) >= 6; b = b[6:] {
+		if uint16(b[0])<<8|uint16(b[1]) != HeaderTableSize {
+			continue
+		}
+
+		size := uint32(b[2])<<24 | uint32(b[3])<<16 | uint32(b[4])<<8 | uint32(b[5])
+		if !c.encTableSizeSet || size < c.encTableSizeMin {
+			c.encTableSizeMin = size
+		}
+
+		c.encTableSize, c.encTableSizeSet = size, true
+	}
+
+	c.encTableLck.Unlock()
 
 	// A change to SETTINGS_INITIAL_WINDOW_SIZE applies to every stream that is
 	// already open, as a delta on what it has left.
